@@ -10,6 +10,17 @@
 #include "mem.c"                       /* from <repo>/src, on the include path */
 #include "mc.h"
 #include <malloc.h>
+/* ASan or MSan build: the cases that need blocks above 4 GiB or 66000 live blocks are left to the plain build */
+#if defined(__SANITIZE_ADDRESS__)
+# define SANITIZED_BUILD 1
+#elif defined(__has_feature)
+# if __has_feature(address_sanitizer) || __has_feature(memory_sanitizer)
+#  define SANITIZED_BUILD 1
+# endif
+#endif
+#ifndef SANITIZED_BUILD
+# define SANITIZED_BUILD 0
+#endif
 #define FAIL(site, kind, shape, ...) mc_fail(site, kind, shape, __VA_ARGS__)
 
 #if DEBUG >= 5
@@ -229,7 +240,7 @@ static void teardown(void *vs)
 /* ---- many live blocks: n around 127/255/256/1000/70000 tracked allocations (the table is re-allocated and searched as it grows), then
  * realloc of the first, the last and a middle block, free in three orders; the table is compared with the live set after every phase */
 static const int MANY[] = { 126, 127, 128, 254, 255, 256, 257, 300, 1000, 66000 };
-#if defined(__SANITIZE_ADDRESS__) || (defined(__has_feature) && __has_feature(address_sanitizer))
+#if SANITIZED_BUILD
 # define NMANY 9        /* under ASan every realloc of the growing table is a copy: the 66000-block case belongs to the plain build */
 #else
 # define NMANY ((int) (sizeof MANY / sizeof MANY[0]))
@@ -248,7 +259,7 @@ static int many_check(void **pp, size_t *sz, int n, const char *shape, const cha
     }
     return 1;
 }
-#if !(defined(__SANITIZE_ADDRESS__) || (defined(__has_feature) && __has_feature(address_sanitizer)))
+#if !SANITIZED_BUILD
 /* a block of more than 4 GiB (never touched, so never resident): the record holds the size that was asked for */
 static void hugeblock_case(void)
 {
@@ -275,7 +286,7 @@ static void hugeblock_case(void)
 #endif
 static void many_case(uint64_t idx, void *ctx)
 {
-#if !(defined(__SANITIZE_ADDRESS__) || (defined(__has_feature) && __has_feature(address_sanitizer)))
+#if !SANITIZED_BUILD
     if (idx == (uint64_t) NMANY * 3) { (void) ctx; sibling_tables_prelude(); hugeblock_case(); return; }
 #endif
     int n = MANY[idx / 3], order = (int) (idx % 3); (void) ctx;
@@ -361,7 +372,7 @@ int main(int argc, char **argv)
 #if TRACKED
     if (!mc_arg("only", NULL)) mc_e2_level("free_array", 3, 8, fa_case, fa_desc, NULL);
     if (!mc_arg("only", NULL)) mc_e2_level("other_modules", 1, 3, so_case, so_desc, NULL);
-#if defined(__SANITIZE_ADDRESS__) || (defined(__has_feature) && __has_feature(address_sanitizer))
+#if SANITIZED_BUILD
     mc_e2_level("many_blocks", 66000, (uint64_t) NMANY * 3, many_case, many_desc, NULL);
 #else
     mc_e2_level("many_blocks", 66000, (uint64_t) NMANY * 3 + 1, many_case, many_desc, NULL);
